@@ -132,8 +132,9 @@ def site(name, flags, metadata=None):
         kw = dict(flags)
         if metadata:
             kw['metadata'] = metadata
-        SITES[name] = kw
-        return '!metadata:' + name
+        key = 's%d_%s' % (len(SITES), name)     # unique per rendering: two renderings never share a table entry
+        SITES[key] = kw
+        return '!metadata:' + key
     md = dict(metadata or {})
     md.update(flags)
     return '!metadata:' + pickle.dumps(md).hex()
